@@ -51,7 +51,7 @@ func c09Workspaces() []c09WS {
 		{name: "w3-files-that-look-at-each-other-in-the-first-pass",
 			files: map[string]string{"luahelper.json": `{"ShowWarnFlag":1,"ReferFrameFiles":[{"Name":"import","type":2,"SuffixFlag":1}]}`,
 				"a.lua": "local m = import(\"b.lua\")\nprint(m.x, E2)\nlocal n = import(\"c.lua\")\nprint(n)\n", "b.lua": "local M = {x = 1}\nreturn M\n",
-				"c.lua": "---@enum start\nE1 = 1\nE2 = E1\nE3 = 1\n---@enum end\ncglobal = 2\n", "d.lua": "print(E1, cglobal, m)\n"},
+				"c.lua": "---@enum start\nE1 = 1\nE2 = E1\nE3 = 1\nE4 = 7 E5 = 7 E6 = 7\n---@enum end\ncglobal = 2\n", "d.lua": "print(E1, cglobal, m)\n"},
 			open: []string{"a.lua", "d.lua"},
 			queries: []c09Query{{"definition", "a.lua", 1, 8, ""}, {"hover", "a.lua", 1, 8, ""}, {"hover", "a.lua", 0, 6, ""}, {"definition", "a.lua", 2, 18, ""},
 				{"definition", "d.lua", 0, 6, ""}, {"references", "d.lua", 0, 10, ""}, {"completion", "a.lua", 1, 8, "."}}},
@@ -79,6 +79,11 @@ func c09Workspaces() []c09WS {
 				s.ChangeInc("c.lua", []drv.Edit{{Range: drv.Range{Start: drv.Pos{Line: 2, Character: 0}, End: drv.Pos{Line: 2, Character: 0}}, Text: "fo"}})
 			},
 			queries: []c09Query{{"completion+resolve", "c.lua", 2, 2, "foo"}, {"completion", "c.lua", 2, 2, ""}}},
+		{name: "w11-same-named-modules-of-unequal-score-the-better-one-sorting-later",
+			files: map[string]string{"zz/util.lua": "local M = {}\nM.inzz = 1\nreturn M\n", "aa/bb/util.lua": "local M = {}\nM.inaa = 1\nreturn M\n",
+				"zz/main.lua": "local u = require(\"util\")\nprint(u.inzz, u.inaa)\n"},
+			open: []string{"zz/main.lua"},
+			queries: []c09Query{{"definition", "zz/main.lua", 0, 20, ""}, {"hover", "zz/main.lua", 0, 20, ""}, {"definition", "zz/main.lua", 1, 9, ""}, {"definition", "zz/main.lua", 1, 17, ""}}},
 		{name: "w9-one-watched-files-batch-naming-a-changed-and-an-unchanged-file",
 			files: map[string]string{"a.lua": "local z = 1\nprint(z)\n", "b.lua": "gy = 1\n", "c.lua": "print(gx, gy)\n"},
 			open:  []string{"c.lua"},
@@ -383,7 +388,7 @@ func init() {
 	core.Register(&core.Check{
 		ID:        "C09",
 		Technique: "stateless schedule exploration of the real server under a controlled runtime (iterative context bounding over goroutine start, channel, reflect.Select, mutex, WaitGroup and shared-object method-entry points) crossed with the pool width and every start offset of Go's map iteration; all executions of a workspace must give identical observables",
-		Rule: "closed systems: 10 small workspaces (a global that is a function in one file and a number in another, completed and resolved from a third, a watched-files batch naming a changed and an unchanged file, a table with more members than the hover preview shows, a directory reachable under three names through symbolic links, duplicate global function, same-base-name modules, files that look at each other during the first pass through a type-2 import frame and an enum block, a global used in three files, symbols sharing a prefix, class annotations across files); each is started (directory scan, first/second/third pass pools), files are opened and definition/hover/references/completion/symbol queries are asked; " +
+		Rule: "closed systems: 11 small workspaces (same-named modules of unequal score, a global that is a function in one file and a number in another, completed and resolved from a third, a watched-files batch naming a changed and an unchanged file, a table with more members than the hover preview shows, a directory reachable under three names through symbolic links, duplicate global function, same-base-name modules, files that look at each other during the first pass through a type-2 import frame and an enum block, a global used in three files, symbols sharing a prefix, class annotations across files); each is started (directory scan, first/second/third pass pools), files are opened and definition/hover/references/completion/symbol queries are asked; " +
 			"explored: every schedule with <=1 deviation from the default schedule at synchronisation points for NumCPU in {1,2} x 9 map-order values (the canonical insertion order and, for every map, each of its 8 start offsets once) (<=2 deviations at offset 0; thorough: at every offset), plus method-entry granularity with <=1 deviation at offsets {0,1} (thorough: <=2 at offset 0); oracle: the normalised observables equal those of the canonical execution (1 CPU, offset 0, default schedule). " +
 			"states = completed executions; transitions = scheduling decisions; non-trivial = configurations with more than one outcome",
 		Assumptions: []string{
